@@ -149,14 +149,16 @@ class Index:
             match, skipped = next_match()
         else:
             match = None
+            # events created exactly at since or until are included,
+            # as they are by every other index and by the residual match
             if until:
-                start = self.prefix + until + b"\x00"
+                start = self.prefix + until + b"\xff"
             else:
                 start = self.prefix + b"\xff"
             cursor.set_range(start)
             stop = self.prefix
             if since:
-                stop += since + b"\xff"
+                stop += since
             # print(f'{start} -> {stop}')
 
         def iterator(match):
